@@ -17,7 +17,7 @@ func init() {
 	core.Register(&core.Monitor{
 		ID: "C19",
 		Rule: "documents rendered from random syntax trees (all three selection kinds, every nesting order, hostile strings, directives, fragment variables) are parsed, " +
-			"json.Marshal'ed, json.Unmarshal'ed and compared with the parsed original through an AST→model adapter; a case is non-trivial when it contains a fragment spread or an inline fragment; " +
+			"json.Marshal'ed, json.Unmarshal'ed and compared with the parsed original through an AST→model adapter, once into a fresh value and once into a value that already holds another (fixed, feature-rich) document; documents carry comments with hostile contents (DEL, private-use and emoji characters, U+2028) on their nodes, and one in 97 is a chain 60-200 selections deep; a case is non-trivial when it contains a fragment spread or an inline fragment; " +
 			"distinct = distinct (kind-at-depth) shape signatures of the selection trees",
 		Assumptions: []string{
 			"model equality ignores positions, comments and validation annotations (the property lists operations, fragments, selections, names, arguments, values, directives, type conditions)",
@@ -28,7 +28,7 @@ func init() {
 		Check:           c19Check,
 		DistinctClasses: []string{"shape"},
 		MinEvaluations:  func(tier string) int64 { return 1000 },
-		RequiredCounts:  []string{"roundtrips", "with_spread", "with_inline"},
+		RequiredCounts:  []string{"roundtrips", "with_spread", "with_inline", "decoded_into_used_value", "deep_chain_documents"},
 	})
 }
 
@@ -38,10 +38,25 @@ func c19Run(x *core.Ctx) {
 		n = 31250 // ×16 = 500k
 	}
 	r := x.Rand(uint64(x.Shard))
-	rn := &model.Renderer{}
 	for i := 0; i < n; i++ {
+		// comments (with hostile contents) ride on the tree's Comment fields and are encoded with it
+		rn := &model.Renderer{R: r.Fork(uint64(i)), Trivia: []int{0, 0, 1, 2}[i%4], WideComments: true}
 		var d *model.Doc
-		if i%5 == 0 {
+		if i%97 == 96 {
+			// a chain far deeper than any sensible guard constant: fields and inline fragments alternating
+			depth := 60 + r.Intn(140)
+			leaf := &model.Sel{Kind: model.SField, Name: "leaf"}
+			cur := leaf
+			for k := depth; k > 0; k-- {
+				if k%7 == 3 {
+					cur = &model.Sel{Kind: model.SInline, TypeCond: "T", Sel: []*model.Sel{cur}}
+				} else {
+					cur = &model.Sel{Kind: model.SField, Name: fmt.Sprintf("n%d", k), Sel: []*model.Sel{cur, {Kind: model.SSpread, Name: "F"}}}
+				}
+			}
+			d = &model.Doc{Defs: []*model.Def{{Op: "query", Name: "Deep", Sel: []*model.Sel{cur}}, {IsFragment: true, Name: "F", TypeCond: "T", Sel: []*model.Sel{{Kind: model.SField, Name: "x"}}}}}
+			x.Count("deep_chain_documents")
+		} else if i%5 == 0 {
 			d = gen.DeepSelections(r, 1+r.Intn(5))
 		} else {
 			d = gen.QueryDoc(r, &gen.QOpts{MaxDepth: 1 + r.Intn(4), Hostile: true, FragVars: true, VarDirs: true, KeywordNames: i%3 == 0, NoBlock: true})
@@ -108,8 +123,38 @@ func c19Check(x *core.Ctx, c *core.Case) {
 		x.Violate("roundtrip:"+code, detail+"\ndecoded:\n"+got.Canon(), "original:\n"+want.Canon())
 		return
 	}
+	// decoding into a value that already holds another document (a server reusing its request object) gives this document,
+	// not a mixture: the primer has variables, directives, arguments and all three selection kinds to leave behind
+	reused := &ast.QueryDocument{}
+	if perr := json.Unmarshal(c19Primer(), reused); perr != nil {
+		x.HarnessBug("primer does not decode: " + perr.Error())
+		return
+	}
+	if uerr := json.Unmarshal(enc, reused); uerr != nil {
+		x.Violate("decode-error(reused-value)", uerr.Error(), "encoded document decodes")
+		return
+	}
+	x.Count("decoded_into_used_value")
+	if code, detail := model.DiffDocs(want, model.FromAST(reused)); code != "" {
+		x.Violate("roundtrip(reused-value):"+code, detail+"\ndecoded:\n"+model.FromAST(reused).Canon(), "original:\n"+want.Canon())
+		return
+	}
 	if x.WantSample() && sp+in > 0 {
 		x.Sample(map[string]interface{}{"document": src, "json_bytes": len(enc), "selections_shape": shape, "verdict": "decoded document equals original"})
 	}
 	_ = fmt.Sprint
+}
+
+var c19PrimerJSON []byte
+
+// c19Primer: the encoding of a fixed document rich in everything a decoder could leave behind.
+func c19Primer() []byte {
+	if c19PrimerJSON == nil {
+		d, err := parser.ParseQuery(&ast.Source{Name: "primer.graphql", Input: `query P($a: Int = 1 @d(x: 2), $b: [String!] = ["s"]) @x(y: [1, {k: $a}]) { a: f(z: {k: [1, null]}, w: $b) @i(if: true) @j { g ...F @k ... on T @l { h } } u } mutation M @m { v } fragment F on T @q(r: 1) { i ...G } fragment G on T { j }`})
+		if err != nil {
+			panic("c19 primer: " + err.Error())
+		}
+		c19PrimerJSON, _ = json.Marshal(d)
+	}
+	return c19PrimerJSON
 }
